@@ -1,34 +1,35 @@
 package main
 
 import (
-	"sync"
 	"fmt"
 	"go/ast"
 	"go/token"
 	"go/types"
 	"sort"
 	"strings"
+	"sync"
 
 	"golang.org/x/tools/go/ssa"
 )
 
 // Obligation is one verification condition: asserts[0:nAssert] ∧ pc ⇒ goal.
 type Obligation struct {
-	Name    string
-	Kind    string
-	Pkg     string
-	Fn      string
-	Pos     string
-	Tags    []string // property ids
-	Src     string   // clause source text (for functional obligations)
-	Expect  string   // "unsat" (must hold) or "sat" (vacuity cover: must be reachable)
-	x       *Exec
-	nDecl   int
-	nAssert int
-	pc      string
-	goal    string
-	Split   string
-	site    string
+	Name         string
+	Kind         string
+	Pkg          string
+	Fn           string
+	Pos          string
+	Tags         []string // property ids
+	Src          string   // clause source text (for functional obligations)
+	Expect       string   // "unsat" (must hold) or "sat" (vacuity cover: must be reachable)
+	x            *Exec
+	nDecl        int
+	CrossChecked bool
+	nAssert      int
+	pc           string
+	goal         string
+	Split        string
+	site         string
 
 	// results
 	Status  string // proved | failed | unknown | cover-ok | cover-failed
@@ -72,8 +73,8 @@ type Exec struct {
 	assertSyms   []assertInfo
 	idxTerms     []idxTerm
 	opaqueCalls  []string
-	skipSafety   bool // contract directive nosafety: panics of this function are the sweep's obligations
-	preWrap2     map[string]bool   // contract functions: stable site keys known (baseline) to need wrap-around
+	skipSafety   bool            // contract directive nosafety: panics of this function are the sweep's obligations
+	preWrap2     map[string]bool // contract functions: stable site keys known (baseline) to need wrap-around
 	key2Count    map[string]int
 	siteKey2     map[string]string // process-local site key -> stable site key
 	curCall      *ssa.CallCommon
